@@ -304,7 +304,7 @@ src/blockdir.rs \
         hex_hash: &str,
         relpath: &str,
         compressed: &[u8],
-    ) -> transport::Result<()> {
+    ) -> std::result::Result<(), transport::Error> {
         self.transport.create_dir(subdir_relpath(hex_hash)).await?;
         self.transport
             .write(relpath, compressed, WriteMode::CreateNew)
@@ -330,3 +330,152 @@ src/archive.rs \
     }
 
     /// Walk the archive to check all invariants.'
+B b30_build_glob_helper 'add_pattern builds both globs through a helper' src/excludes.rs \
+'    gsb.add(
+        GlobBuilder::new(&pattern)
+            .literal_separator(true)
+            .build()
+            .map_err(|source| Error::ParseGlob { source })?,
+    );
+    gsb.add(
+        GlobBuilder::new(&format!("{pattern}/**"))
+            .literal_separator(true)
+            .build()
+            .map_err(|source| Error::ParseGlob { source })?,
+    );
+    Ok(())
+}' \
+'    gsb.add(build_glob(&pattern)?);
+    gsb.add(build_glob(&format!("{pattern}/**"))?);
+    Ok(())
+}
+
+fn build_glob(pattern: &str) -> Result<globset::Glob> {
+    GlobBuilder::new(pattern)
+        .literal_separator(true)
+        .build()
+        .map_err(|source| Error::ParseGlob { source })
+}'
+B b31_append_content_helper 'push_file reads the file into the buffer through a helper' src/backup.rs \
+'        self.buf.resize(start + expected_len, 0);
+        let len =
+            from_file
+                .read(&mut self.buf[start..])
+                .map_err(|source| Error::ReadSourceFile {
+                    path: entry.apath.to_string().into(),
+                    source,
+                })?;
+        self.buf.truncate(start + len);' \
+'        let len = self.append_content(entry, from_file, expected_len)?;' \
+src/backup.rs \
+'/// True if the metadata supports an assumption the file contents have' \
+'impl FileCombiner {
+    /// Read up to `expected_len` bytes onto the end of the combine buffer; returns the bytes read.
+    fn append_content(
+        &mut self,
+        entry: &source::Entry,
+        from_file: &mut dyn Read,
+        expected_len: usize,
+    ) -> Result<usize> {
+        let old_len = self.buf.len();
+        self.buf.resize(old_len + expected_len, 0);
+        let len = from_file
+            .read(&mut self.buf[old_len..])
+            .map_err(|source| Error::ReadSourceFile {
+                path: entry.apath.to_string().into(),
+                source,
+            })?;
+        self.buf.truncate(old_len + len);
+        Ok(len)
+    }
+}
+
+/// True if the metadata supports an assumption the file contents have'
+B b32_symlink_times_helper 'restore_symlink sets the link times through a helper' src/restore.rs \
+'        let mtime = entry.mtime().to_file_time();
+        if let Err(source) = set_symlink_file_times(path, mtime, mtime) {
+            return Err(Error::RestoreModificationTime {
+                path: path.to_owned(),
+                source,
+            });
+        }
+    } else {' \
+'        set_link_mtime(path, entry)?;
+    } else {' \
+src/restore.rs \
+'#[cfg(not(unix))]
+#[mutants::skip]
+fn restore_symlink(' \
+'#[cfg(unix)]
+fn set_link_mtime(path: &Path, entry: &IndexEntry) -> Result<()> {
+    let mtime = entry.mtime().to_file_time();
+    set_symlink_file_times(path, mtime, mtime).map_err(|source| Error::RestoreModificationTime {
+        path: path.to_owned(),
+        source,
+    })
+}
+
+#[cfg(not(unix))]
+#[mutants::skip]
+fn restore_symlink('
+B b33_band_close_helper 'Band::close writes the tail through a helper' src/band.rs \
+'    pub async fn close(&self, index_hunk_count: u64) -> Result<()> {
+        write_json(
+            &self.transport,
+            BAND_TAIL_FILENAME,
+            &Tail {
+                end_time: Timestamp::now().as_second(),
+                index_hunk_count: Some(index_hunk_count),
+            },
+        )
+        .await
+        .map_err(Error::from)
+    }' \
+'    pub async fn close(&self, index_hunk_count: u64) -> Result<()> {
+        let tail = Tail {
+            end_time: Timestamp::now().as_second(),
+            index_hunk_count: Some(index_hunk_count),
+        };
+        self.put_tail(&tail).await
+    }
+
+    async fn put_tail(&self, tail: &Tail) -> Result<()> {
+        write_json(&self.transport, BAND_TAIL_FILENAME, tail)
+            .await
+            .map_err(Error::from)
+    }'
+B b34_write_hunk_helper 'finish_hunk writes the hunk file through a helper' src/index/write.rs \
+'        if (self.sequence % HUNKS_PER_SUBDIR) == 0 {
+            self.transport
+                .create_dir(&subdir_relpath(self.sequence))
+                .await?;
+        }
+        let compressed_bytes = self.compressor.compress(&json)?;
+        self.transport
+            .write(&relpath, &compressed_bytes, WriteMode::CreateNew)
+            .await?;
+        self.hunks_written += 1;' \
+'        let compressed_bytes = self.compressor.compress(&json)?;
+        self.put_hunk(&relpath, &compressed_bytes).await?;
+        self.hunks_written += 1;' \
+src/index/write.rs \
+'        self.entries.clear(); // Ready for the next hunk.
+        self.sequence += 1;
+        Ok(())
+    }' \
+'        self.entries.clear(); // Ready for the next hunk.
+        self.sequence += 1;
+        Ok(())
+    }
+
+    async fn put_hunk(&self, relpath: &str, compressed_bytes: &[u8]) -> Result<()> {
+        if (self.sequence % HUNKS_PER_SUBDIR) == 0 {
+            self.transport
+                .create_dir(&subdir_relpath(self.sequence))
+                .await?;
+        }
+        self.transport
+            .write(relpath, compressed_bytes, WriteMode::CreateNew)
+            .await?;
+        Ok(())
+    }'
